@@ -38,6 +38,7 @@ def run(ctx):
         ctx.extra["sampled"] = cap
     payloads = [{"primes": PRIMES, "vectors": vectors[i::14]} for i in range(14) if vectors[i::14]]
     payloads += [{"primes": PRIMES, "vectors": [], "nfloat": 400 if thorough else 60, "seed": ctx.seed + j} for j in range(2)]
+    payloads += [{"primes": PRIMES, "vectors": [], "nfloat": 200 if thorough else 40, "seed": ctx.seed + 5 + j, "body": b} for j, b in enumerate(("moon", "heavy"))]
     for res in ctx.harness_parallel("kepler_replay.py", payloads, procs=16, timeout=3000):
         ctx.absorb(res)
     ctx.exhaustive = False
